@@ -33,9 +33,10 @@ F1Cases ==
 ---------------------------------------------------------------------------
 \* format 2, duplicates in every position: glyphs 1 .. 4 each named by string 258 ("x"),
 \* 259 ("y") or 260 ("x" again, another string with the same text)
+DupN == IF Deep THEN 5 ELSE 4
 DupCases ==
-  {Case("f2dup", ToString(a), 5, Post(2, <<0>> \o a, <<"x", "y", "x">>, <<>>), <<>>, "Unicode",
-        StdLists(5) \o <<<<4, 2, 4, 1>>>>) : a \in [1 .. 4 -> {258, 259, 260}]}
+  {Case("f2dup", ToString(a), DupN + 1, Post(2, <<0>> \o a, <<"x", "y", "x">>, <<>>), <<>>, "Unicode",
+        StdLists(DupN + 1) \o <<<<4, 2, 4, 1>>>>) : a \in [1 .. DupN -> {258, 259, 260}]}
 
 \* format 2, index boundaries.  K strings; the probe index sits on glyph 2.
 F2Strs == <<"alpha", "beta", "gamma">>
